@@ -81,6 +81,7 @@ func Main(property string) {
 	}
 	t0 := time.Now()
 	totalSteps := 0
+	confirmed := map[string]bool{}
 	for _, sc := range scs {
 		res := Run(sc)
 		pan := takePanics()
@@ -88,8 +89,9 @@ func Main(property string) {
 		if len(pan) > 0 {
 			fs = append(fs, Finding{"c01:panic:" + sc.shape(), "a producer goroutine panicked: " + pan[0]})
 		}
-		if len(fs) > 0 {
-			// anything observed once is re-run: only a failure seen twice counts
+		if len(fs) > 0 && !allConfirmed(fs, confirmed) {
+			// anything observed once is re-run: only a failure seen twice counts (a signature confirmed that way
+			// earlier in this run is not re-run again)
 			res2 := Run(sc)
 			pan2 := takePanics()
 			fs2 := monitor(res2)
@@ -108,6 +110,9 @@ func Main(property string) {
 			fs = both
 			if len(fs) == 0 {
 				res = res2
+			}
+			for _, f := range fs {
+				confirmed[f.Signature] = true
 			}
 		}
 		side := coqfmt.Sidecar{Kind: kindOf(sc), Nontrivial: nontrivial(sc, res)}
@@ -207,4 +212,13 @@ func nontrivial(sc *Scenario, res *Result) bool {
 		seen[k] = true
 	}
 	return false
+}
+
+func allConfirmed(fs []Finding, confirmed map[string]bool) bool {
+	for _, f := range fs {
+		if !confirmed[f.Signature] {
+			return false
+		}
+	}
+	return true
 }
